@@ -40,16 +40,17 @@ def net3(rng, pp, symmetric):
     load_buses = buses[1:]
     for b in load_buses:
         if symmetric:
-            pp.create_load(net, b, rng.choice([0.02, 0.05]), rng.choice([0.005, 0.01]))
+            pp.create_load(net, b, rng.choice([0.02, 0.05]), rng.choice([0.005, 0.01]), scaling=rng.choice([1.0, 1.0, 0.8]))
             if rng.random() < 0.4:
                 pp.create_sgen(net, b, rng.choice([0.01, 0.03]), rng.choice([0.0, 0.008, -0.006]))
         else:
             pp.create_asymmetric_load(net, b, p_a_mw=rng.choice([0.01, 0.03]), q_a_mvar=0.004, p_b_mw=rng.choice([0.01, 0.02]),
-                                      q_b_mvar=0.003, p_c_mw=rng.choice([0.005, 0.02]), q_c_mvar=0.002)
+                                      q_b_mvar=0.003, p_c_mw=rng.choice([0.005, 0.02]), q_c_mvar=0.002, scaling=rng.choice([1.0, 0.7, 1.3]))
             if rng.random() < 0.4:
                 pp.create_sgen(net, b, rng.choice([0.01, 0.03]), rng.choice([0.0, 0.008]))
             if rng.random() < 0.3:
-                pp.create_asymmetric_sgen(net, b, p_a_mw=0.004, p_b_mw=0.0, p_c_mw=0.002, q_a_mvar=0.001, q_b_mvar=0., q_c_mvar=0.)
+                pp.create_asymmetric_sgen(net, b, p_a_mw=0.004, p_b_mw=0.0, p_c_mw=0.002, q_a_mvar=0.001, q_b_mvar=0., q_c_mvar=0.,
+                                          scaling=rng.choice([1.0, 1.5]))
     return net
 
 
